@@ -42,6 +42,26 @@ def sh(cmd, timeout=1200, cwd=None, env=None, check=True, capture=True):
     return p.returncode, p.stdout or "", time.time() - t0
 
 
+class StallError(Exception):
+    """the implementation did not return from one step within the watchdog time"""
+    def __init__(self, casefile, line, op):
+        Exception.__init__(self, "implementation stalled at line %d (%s)" % (line, op))
+        self.casefile, self.line, self.op = casefile, line, op
+
+    def history(self):
+        """the case (op lines) in which the stall happened, up to and including the stalling op"""
+        cur, cid = [], "?"
+        for i, l in enumerate(open(self.casefile), 1):
+            l = l.rstrip("\n")
+            if l.startswith("case "):
+                cur, cid = [], l.split()[1]
+            elif l.strip() and not l.startswith("#"):
+                cur.append(l)
+            if i == self.line:
+                break
+        return cid, cur
+
+
 class Lock:
     def __init__(self, name):
         os.makedirs(BUILD, exist_ok=True)
@@ -166,6 +186,9 @@ def harness_build(race=False):
 def run_impl(mode, casefile, outfile, timeout=1200, race=False):
     exe = os.path.join(BUILD, "drive_race" if race else "drive")
     rc, out, dt = sh([exe, mode, casefile, outfile], timeout=timeout, check=False)
+    if rc == 3 and "STALL line=" in out:
+        m = re.search(r"STALL line=(\d+) op=(.*)", out)
+        raise StallError(casefile, int(m.group(1)), m.group(2).strip())
     if rc != 0:
         raise CheckError("implementation driver failed rc=%d: %s" % (rc, out[-3000:]))
     return dt
